@@ -54,11 +54,11 @@ def mk_partial(m, k):
     build = tuple(bld.split('.')) if (bld and full) else ()
     return (xs, tag, build)
 
+LIBERAL = True
 FORM = {None: 'bare', '<': '<', '<=': '<=', '>': '>', '>=': '>=', '=': '=', '~': '~', '^': '^'}
 def parse_alt(a):
     a = a.strip(WS)
     if a == '': return ('set', [])
-    if '|' in a: return None
     m = HYPHEN_RE.match(a)
     if m:
         lo = mk_partial(m, 'a'); hi = mk_partial(m, 'b')
@@ -77,7 +77,12 @@ def parse_alt(a):
         m = JUNK_RE.match(a, i)
         if m:
             comps.append(('garbage', m.group(0))); i = m.end(); continue
-        return None
+        # any other run of non-blank scalars that is not a comparator is an unparseable token too ("unparseable tokens dropped"): `1.2.3.4`, `>=`,
+        # `a|b` (a lone `|` does not separate alternatives), `1.2beta4`, ...  LIBERAL is switched off to get the narrow language of Spec/RangeText.v
+        if not LIBERAL: return None
+        j = i
+        while j < len(a) and a[j] not in WS: j += 1
+        comps.append(('garbage', a[i:j])); i = j
     return ('set', comps)
 
 def parse_text(s):
